@@ -131,8 +131,8 @@ def model_run(resp):
 
 def run(ctx):
     rng = ctx.rng
-    n_base = ctx.scale(300, 12000)
-    per_mut = ctx.scale(20, 900)
+    n_base = ctx.scale(700, 12000)
+    per_mut = ctx.scale(35, 900)
     progs = []      # (src, mutation or None)
     feats = {}
     while len(progs) < n_base:
@@ -238,7 +238,11 @@ def run(ctx):
         if mcls == "timeout" or cls == "timeout":
             n_timeout += 1
         elif mcls in ("bad", "outside"):
-            ctx.disagree("m8_run", {"src": src}, mr, cls)
+            if mverdict == "outside" or cls in ("crash", "died", "other", "stack-limit"):
+                # resource exhaustion on both sides (or a program outside the model's syntax): nothing to compare
+                ctx.cov["model_run_skipped"] = ctx.cov.get("model_run_skipped", 0) + 1
+            else:
+                ctx.disagree("m8_run", {"src": src}, mr, cls)
         elif cls not in ("crash", "died", "other", "stack-limit") and mcls != cls:
             if not (mcls == "unsupported"):
                 run_dis.append((src, mut, mcls, cls, msg[:120]))
